@@ -5,7 +5,7 @@ VERIF = os.path.dirname(os.path.dirname(os.path.dirname(os.path.abspath(__file__
 REPO = os.environ.get('JB_REPO', '/repo')
 WORK = os.path.join(VERIF, 'work')
 COQ = os.path.join(VERIF, 'coq')
-HARNESS_BIN = os.path.join(WORK, 'harness-target', 'debug', 'jbh')
+HARNESS_BIN = os.environ.get('JB_HARNESS_BIN') or os.path.join(WORK, 'harness-target', 'debug', 'jbh')   # override: coverage-instrumented build (tools/coverage.sh)
 HARNESS_BIN_REL = os.path.join(WORK, 'harness-target', 'release', 'jbh')
 DRIVER_BIN = os.path.join(WORK, 'ocaml', 'driver')
 NCPU = min(16, os.cpu_count() or 4)
